@@ -41,7 +41,7 @@ def plan(tier, prop):
                 "non-trivial = at least one router operation completed; "
                 "distinct = distinct abstract event traces",
         "expected_probes": ["alloc_failed_natural", "alloc_failed_injected",
-                            "multisource_error", "shared_keymask_merge",
+                            "multisource_error", "shared_keymask_merge", "numpy_keys",
                             "empty_table", "big_table", "all_route_bits",
                             "clear", "readback", "op_timeout",
                             "leaf_without_route", "fragmented_start"],
@@ -175,6 +175,13 @@ class RtrEngine(object):
         W, H = 1 + t.draw(5), 1 + t.draw(5)
         self.torus = bool(t.draw(2))
         n_trees = t.draw_small(13, 0.75)
+        # keys and masks as the caller's 32-bit integers of whatever type
+        # (e.g. elements of a numpy key array)
+        import numpy
+        kt = [int, numpy.uint32, numpy.int64, numpy.uint64][
+            t.weighted([6, 2, 1, 1])]
+        if kt is not int:
+            w.probe("numpy_keys")
         trees = {}
         net_keys = {}
         kms = []
@@ -200,7 +207,7 @@ class RtrEngine(object):
             else:
                 mask = [0xffffffff, 0xffff0000, 0xfffffff0, 0x0,
                         t.draw(1 << 32)][t.draw(5)]
-                net_keys[net] = (t.draw(1 << 32) & mask, mask)
+                net_keys[net] = (kt(t.draw(1 << 32) & mask), kt(mask))
             kms.append(net_keys[net])
             trees[net] = self.gen_tree(W, H, 10)
         routes = {net: tr[0] for net, tr in trees.items()}
